@@ -35,6 +35,39 @@ CHECKS = {
                 "net.Pipe as connection. TCP urgent data/deadlines not modelled. No axioms.",
         "technique": "Coq proof (all-segmentations theorem by induction over scanner runs; staged-read refinement) + differential correspondence check over scripted segmentations",
     },
+    "C04": {
+        "text": "Model Auth/Door.v: what handleNewConnection does with the byte string of a new connection (12-byte handshake, ban verdict, "
+                "first scanner token, Transaction.Write, de-obfuscated login with guest fallback, bcrypt abstracted to its 72 key bytes, "
+                "dispatch loop). Theorems (Props/C04.v), for ALL account tables and ALL byte strings: logged_in_iff (logged in exactly when "
+                "valid handshake, not banned, first token decodes, account exists, password verifies); only_the_current_password (for "
+                "NUL-free passwords <= 72 bytes 'verifies' is equality); nothing_before_login (no request dispatched, never registered, the "
+                "peer receives nothing / the handshake reply / that plus one error reply or one ban notice); appended_requests_ignored "
+                "(any bytes appended after a complete first transaction change nothing unless it logs in); bad/short handshake gets "
+                "not one byte. Correspondence: real handleNewConnection over net.Pipe on real account tables (7 password shapes incl. "
+                "72-byte, NUL, empty; guest present/absent), handshake variants, password variants (one bit off, prefix, extension, NUL "
+                "variants that collide under bcrypt), first transactions of other types / malformed / oversize / truncated, effectful "
+                "requests appended; observed: every byte the peer received, what a logged-in observer received, config+file tree "
+                "before/after, client registry.",
+        "note": "Found and repaired (11f422e): failed logins were announced to logged-in users as departures. Trusted: bcrypt abstraction, "
+                "net.Pipe, C02's scanner model. No axioms.",
+        "technique": "Coq proof over a byte-stream model of the login path + differential correspondence on the real connection handler",
+    },
+    "C17": {
+        "text": "Models Srv/Ban.v (ban list in memory and on disk, disconnect request with options, restart, door verdict) and Auth/Door.v. "
+                "Theorems (Props/C17.v): refused_iff_latest_request (after ANY history of connections, disconnect/ban requests, direct "
+                "additions and restarts, an address is turned away at instant now iff the latest ban request for it is permanent or "
+                "temporary with now before its expiry); kick_records_ban (30 minutes / unlimited / none by option, for the target's "
+                "address); ban_term_respected, permanent_ban_stands, expired_ban_admits; other_addresses_unaffected; "
+                "refused_before_login (the outcome for a banned address is independent of the account table, never a login); "
+                "kick_closes_and_tells_others; protected_user_stays. Correspondence: histories on a real server over net.Pipe (admin, "
+                "users from 6 IPv4 addresses incl. prefix-similar ones, protected users): disconnect requests with every option value, "
+                "reconnect attempts carrying valid credentials, restarts (fresh BanFile from the file), bans added directly with expiry "
+                "from an hour ago to ten years ahead; observed: bytes a refused peer gets, that the target is closed and exactly the "
+                "others are told, the notice shown, the stored expiry within [t0+30min, t1+30min].",
+        "note": "time.Now is an input (harness clock readings); expiries are placed >= 90 s from 'now', the boundary is covered by the "
+                "theorem only. 'Latest request wins' is how the statement is read for repeated bans of one address. No axioms.",
+        "technique": "Coq proof over a history model of the ban list + wire-level history correspondence on the real server",
+    },
     "C05": {
         "text": "Theorems (Props/C05.v): (guards_match_spec) for every one of the 43 handlers found in the source the set of Access constants it passes "
                 "to Authorize equals the reference table (no dropped check, wrong constant or extra check), every registered type is covered, "
